@@ -597,6 +597,68 @@ def check_offset_provenance(ctx, lib):
 
 
 # =============================================================================================
+
+def fold_line_column(lib, b, o):
+    """The (line, column) scan written as `iter.fold((0, 0), |(line, column), (_, c)| ..)`: returns (ok, iterator terms, fold call
+    term) where ok means: a newline gives (line + 1, 0), any other character gives (line, column + 1), starting from (0, 0)."""
+    folds = [(bb, t) for bb, t in b.calls() if t["callee"] == "std::iter::Iterator::fold"]
+    if len(folds) != 1:
+        return False, None, None
+    fb, ft = folds[0]
+    it = o.of_operand(ft["args"][0])
+    init = o.of_operand(ft["args"][1])
+    zero2 = all(x[0] == "agg" and x[1] == "tuple" and len(x[2]) == 2 and all(set(c) == {("const", 0)} for c in x[2]) for x in init) and bool(init)
+    clo = [x for x in o.of_operand(ft["args"][2]) if x[0] == "closure"]
+    if not zero2 or len(clo) != 1:
+        return False, it, None
+    cb = lib.fn(clo[0][1])
+    if cb is None:
+        return False, it, None
+    co = Origins(cb, lib)
+    cbr = Branches(cb, co)
+    ACC, ITEM = ("param", 2), ("param", 3)
+    nl_edge = other_edge = None
+    for sb in sorted(cb.reachable()):
+        t = cb.blocks[sb]["term"]
+        if t["k"] != "switch":
+            continue
+        d = t["discr"]
+        if d.get("ty") == "char" and d.get("k") in ("copy", "move"):
+            src = co.of_operand(d)
+            if src == {("field", ITEM, "1")}:
+                tg = dict((v, x) for v, x in t["targets"])
+                if set(tg) == {10}:
+                    nl_edge, other_edge = (sb, tg[10]), (sb, t["otherwise"])
+        be = cbr.bool_edges(sb)
+        if be:
+            for c in cbr.cond(sb):
+                if c[0] == "bin" and c[1] in ("Eq", "Ne") and {c[2], c[3]} == {("field", ITEM, "1"), ("const", 10)}:
+                    nl_edge, other_edge = ((sb, be[0]), (sb, be[1])) if c[1] == "Eq" else ((sb, be[1]), (sb, be[0]))
+    if nl_edge is None:
+        return False, it, None
+
+    def inc(f):
+        base = ("field", ACC, f)
+        return {("field", ("bin", "AddWithOverflow", base, ("const", 1)), "0"), ("bin", "Add", base, ("const", 1))}
+
+    ok = True
+    seen = set()
+    for bb, i, st in cb.stmts():
+        if st["k"] == "assign" and st["rv"]["k"] == "agg" and st["rv"].get("ak") == "tuple" and len(st["rv"]["ops"]) == 2 and \
+                (st["place"]["l"] == 0 or cb.local_ty(st["place"]["l"]) == cb.local_ty(0)):
+            x, y = (co.of_operand(op) for op in st["rv"]["ops"])
+            if edge_dominates(cb, nl_edge, bb):
+                ok = ok and x <= inc("0") and bool(x) and y == {("const", 0)}
+                seen.add("nl")
+            elif edge_dominates(cb, other_edge, bb):
+                ok = ok and x == {("field", ACC, "0")} and y <= inc("1") and bool(y)
+                seen.add("other")
+            else:
+                ok = False
+    fold_term = [x for x in o.of_local(ft["dest"]["l"]) if x[0] == "call" and x[1] == "std::iter::Iterator::fold"]
+    return ok and seen == {"nl", "other"}, it, (fold_term[0] if fold_term else None)
+
+
 def check_units(ctx, lib):
     rule = "byte-vs-char-units"
     b = ctx.fn(NEW, rule=rule)
@@ -625,7 +687,26 @@ def check_units(ctx, lib):
     cyc = cfg_cycles(b)
     ok = len(cyc) == 1
     how = ""
-    if ok:
+    fold_ok, fold_it, fold_term = (False, None, None)
+    if not cyc:
+        # the scan as a fold over the same iterator
+        fold_ok, fold_it, fold_term = fold_line_column(lib, b, o)
+        ok = False
+        for i in fold_it or ():
+            if i[0] == "adapt" and i[1] == "take_while" and i[2] == ("iter", ("param", 1)):
+                for c in i[3]:
+                    if c[0] == "closure":
+                        cb = lib.fn(c[1])
+                        co = Origins(cb, lib)
+                        r = co.of_local(0)
+                        cap_ok = c[2] == (fs({("param", 2)}),)
+                        cmp_ok = all(x[0] == "bin" and x[1] == "Lt" and x[2] == ("field", ("param", 2), "0") and
+                                     x[3][0] == "field" and x[3][1] == ("closure_env",) for x in r) and bool(r)
+                        ok = cap_ok and cmp_ok
+                        how = "fold over take_while(|(i, _)| i < offset) over char_indices()"
+        ci = [t for _, t in b.calls() if t["callee"] == "core::str::<impl str>::char_indices"]
+        ok = ok and len(ci) == 1 and o.of_operand(ci[0]["args"][0]) == {("param", 1)}
+    elif ok:
         nx = [(x, b.blocks[x]["term"]) for x in cyc[0] if b.blocks[x]["term"]["k"] == "call" and b.blocks[x]["term"]["callee"] == "std::iter::Iterator::next"]
         ok = len(nx) == 1
         if ok:
@@ -667,7 +748,12 @@ def check_units(ctx, lib):
             ch = (s["place"]["l"], bb)
     agg = [s for _, _, s in b.stmts() if s["k"] == "assign" and s["rv"]["k"] == "agg" and s["rv"].get("adt") == "errors::JmespathError"]
     ok = ch is not None and len(agg) == 1
-    if ok:
+    if not cyc and len(agg) == 1 and fold_term is not None:
+        # fold form: the two components of the fold's result are stored as line and column
+        vals = dict(zip(agg[0]["rv"]["fnames"], agg[0]["rv"]["ops"]))
+        ok = fold_ok and o.of_operand(vals["line"]) == {("field", fold_term, "0")} and o.of_operand(vals["column"]) == {("field", fold_term, "1")}
+        ok = ok and o.of_operand(vals["offset"]) == {("param", 2)} and o.of_operand(vals["reason"]) == {("param", 3)} and o.of_operand(vals["expression"]) == {("param", 1)}
+    elif ok:
         vals = dict(zip(agg[0]["rv"]["fnames"], agg[0]["rv"]["ops"]))
         line_l, col_l = vals["line"].get("l"), vals["column"].get("l")
         # follow single copies
